@@ -132,6 +132,9 @@ type tableSpec struct {
 	lower    bool // key is lower-cased
 	single   bool // singleton table (key is a constant)
 	emptyKeyFails bool // the id indexer rejects an empty key (reads and writes fail)
+	// an alternative argument type from which the key can be computed (e.g. *pbresource.ID for the resources table)
+	altPkg, altType string
+	altFields       []string
 	indexes  map[string]indexSpec
 }
 
@@ -158,6 +161,10 @@ func init() {
 	addTable(&tableSpec{name: "connect-ca-roots", rowPkg: structsPkg, rowType: "CARoot", keyField: "ID"})
 	addTable(&tableSpec{name: "connect-ca-builtin", rowPkg: structsPkg, rowType: "CAConsulProviderState", keyField: "ID"})
 	addTable(&tableSpec{name: "autopilot-config", rowPkg: structsPkg, rowType: "AutopilotConfig", single: true})
+	addTable(&tableSpec{name: "resources", rowPkg: consulMod + "/proto-public/pbresource", rowType: "Resource",
+		keyFields: []string{"Id.Type.Group", "Id.Type.Kind", "Id.Tenancy.Partition", "Id.Tenancy.Namespace", "Id.Name"},
+		altPkg:    consulMod + "/proto-public/pbresource", altType: "ID",
+		altFields: []string{"Type.Group", "Type.Kind", "Tenancy.Partition", "Tenancy.Namespace", "Name"}})
 	addTable(&tableSpec{name: "index", rowPkg: statePkg, rowType: "IndexEntry", keyField: "Key", lower: true})
 	addTable(&tableSpec{name: "sessions", rowPkg: structsPkg, rowType: "Session", keyField: "ID", lower: true,
 		indexes: map[string]indexSpec{"node": {kind: "fieldeq", field: "Node", lower: true}, "id_prefix": {kind: "prefix"}}})
@@ -185,7 +192,7 @@ func (e *Engine) installTableObjs(pkg *types.Package) {
 		}
 		var params []*types.Var
 		if !t.single {
-			params = append(params, types.NewVar(token.NoPos, pkg, "k", types.Typ[types.String]))
+			params = append(params, types.NewVar(token.NoPos, pkg, "k", types.NewInterfaceType(nil, nil)))
 		}
 		sig := types.NewSignatureType(nil, nil, nil, types.NewTuple(params...), types.NewTuple(types.NewVar(token.NoPos, pkg, "", rt)), false)
 		fn := types.NewFunc(token.NoPos, pkg, fname, sig)
@@ -207,9 +214,15 @@ func (f *Frame) tableAccessor(st *State, e *ast.CallExpr, name string) *Term {
 	if t.single {
 		k = Sym("strEmpty", SStr)
 	} else {
-		k = f.expr(st, e.Args[0])
-		if t.lower {
-			k = f.c.strLower(k)
+		at := f.typeOf(e.Args[0])
+		v := f.expr(st, e.Args[0])
+		if v.Sort == SStr {
+			k = v
+			if t.lower {
+				k = f.c.strLower(k)
+			}
+		} else {
+			k = f.argKey(st, t, v, at, e)
 		}
 	}
 	r := Select(f.tableArr(st, t), k)
@@ -410,11 +423,30 @@ func (f *Frame) argKey(st *State, t *tableSpec, v *Term, at types.Type, n ast.No
 	if rt := f.eng.tableRowType(t); rt != nil && types.Identical(types.Unalias(at), rt) && (len(t.keyFields) > 0 || strings.Contains(t.keyField, ".")) {
 		return f.rowKey(st, t, v)
 	}
+	if t.altType != "" {
+		if alt := f.eng.lookupType(t.altPkg, t.altType); alt != nil && types.Identical(types.Unalias(at), types.NewPointer(alt)) {
+			return f.altKey(st, t, v)
+		}
+	}
 	k := f.argString(st, v, at, n)
 	if t.lower {
 		k = f.c.strLower(k)
 	}
 	return k
+}
+
+// altKey: the key computed from an object of the table's alternative argument type.
+func (f *Frame) altKey(st *State, t *tableSpec, ref *Term) *Term {
+	alt := &tableSpec{name: t.name, rowPkg: t.altPkg, rowType: t.altType}
+	var parts []*Term
+	for i, kf := range t.altFields {
+		v := f.rowField(st, alt, ref, kf)
+		if i < len(t.keyLower) && t.keyLower[i] {
+			v = f.c.strLower(v)
+		}
+		parts = append(parts, v)
+	}
+	return f.c.tupleKey(parts)
 }
 
 // argString: the string a query argument denotes (a string, or a value with an IDValue() string method).
@@ -584,7 +616,12 @@ func modelDelete(f *Frame, st *State, e *ast.CallExpr, recv *Term, args []*Term,
 	if t.single {
 		k = Sym("strEmpty", SStr)
 	} else {
-		k = f.rowKey(st, t, obj)
+		k = f.argKey(st, t, obj, f.typeOf(e.Args[1]), e)
+		if rt := f.eng.tableRowType(t); rt != nil && types.Identical(types.Unalias(f.typeOf(e.Args[1])), rt) {
+			k = f.rowKey(st, t, obj)
+		} else if _, isIface := types.Unalias(f.typeOf(e.Args[1])).Underlying().(*types.Interface); isIface {
+			k = f.rowKey(st, t, obj)
+		}
 	}
 	tb := f.tableArr(st, t)
 	present := Ne(Select(tb, k), IntLit(0))
@@ -828,4 +865,8 @@ func (c *Ctx) timeLt(a, b *Term) *Term {
 		)
 	}
 	return App(fn, SBool, a, b)
+}
+
+func init() {
+	models[memdbPkg+".MemDB.Txn"] = modelNewTxn
 }
